@@ -207,4 +207,24 @@ PROPS = {
                  3: "the decoded value differs from the original"},
         "assumptions": ["numbers are float64 values as encoding/json produces them; integers are within +-2^53"],
     },
+    "C09": {
+        "level_text": ("Theorems (Props/C09.v, axiom-free, on top of C12's wire theorems): for every column type (atoms, enums, uuids/references, optional, sets with any "
+                       "bounds, maps over every key/value type) and every native value of the field's type, NativeToOvs, the JSON encoding, the row decoder and OvsToNative "
+                       "compose to the identity (a one-element set travels as its element and comes back as a one-element slice; an empty optional as nil); a value whose "
+                       "Go type does not match the column is rejected; what OvsToNative accepts for an atomic column is a value of the column's type denoting the same OVS "
+                       "value (nothing is converted); columns absent from a row leave the field untouched. Tied to the code by run-time struct models over a 60-column "
+                       "table: NativeToOvs, OvsToNative, Mapper.NewRow and Mapper.GetRowData are compared with the model; the whole path incl. model.CreateModel and the "
+                       "schema validation of mismatching field types is checked by the driver's oracle. Partial: the composition over all columns of a model is a "
+                       "correspondence + oracle matter, not yet a theorem; integers are unbounded in the model."),
+        "level_note": ("Trusted: Coq kernel + vm_compute, std++; Go harness (reflect.StructOf models); encoding/json. Go's type identity of empty slices/maps and nil pointers "
+                       "is invisible to the model (such mismatch cases are skipped). Known findings: integers beyond 2^53 (class 13) and the all-zero uuid (class 14)."),
+        "rule": ("a value for a random column of the 60-column table (all atomic types as atom/optional/set 0..n/set 1..n/set 0..3, 15 map shapes, enums of strings and "
+                 "integers as atom/optional/set/map key, strong and weak references in every position; 12% with integers from the edges of the 64-bit range, 10% of uuid "
+                 "atoms the all-zero uuid) goes model -> NewRow -> JSON -> Row -> GetRowData (fresh and pre-filled two-column model) / CreateModel; half as many "
+                 "mismatching cases (native and OVS values of another column, junk OVS values); all ordered pairs of differing field types through NewDatabaseModel. "
+                 "Non-trivial: the value is not a bare atom."),
+        "tags": {1: "NativeToOvs accepts/rejects differently", 2: "NativeToOvs result", 3: "OvsToNative accepts/rejects differently", 4: "OvsToNative result",
+                 5: "NewRow accepts/rejects differently", 6: "NewRow result", 7: "model after GetRowData", 8: "GetRowData accepts/rejects differently"},
+        "assumptions": ["sets handed to the mapper are duplicate-free; map keys are distinct as Go compares them", "non-finite reals excluded (the property's quantifier)"],
+    },
 }
